@@ -49,7 +49,12 @@ Inductive case :=
 | KTrunc (tp : tparams) (st : list part) (report : list line) (after : list oslot) (readers : list parked)
 (* one partition, a writer appending the chunks w (flushed) when deleteJournal asks for the exclusive lock:
    fired = the writer ran (deleteJournal was reached), after = what became of the partition *)
-| KRace (tp : tparams) (p : part) (w : list chunk) (fired : bool) (after : oslot).
+| KRace (tp : tparams) (p : part) (w : list chunk) (fired : bool) (after : oslot)
+(* a statement whose source condition the tag-condition builder refuses: answered = cmdTruncate returned a report
+   instead of an error; after = what became of every partition *)
+| KTruncRefused (tp : tparams) (st : list part) (answered : bool) (after : list oslot)
+(* a statement of which only the report could be observed (the server fell over right after it) *)
+| KTruncReport (tp : tparams) (st : list part) (report : list line).
 
 Definition check (c : case) : bool :=
   match c with
@@ -61,6 +66,13 @@ Definition check (c : case) : bool :=
   | KRace tp p w fired after =>
       let '(s, f) := visit_one_w code_incl tp p (if fired then w else []) in
       Bool.eqb f fired && oslot_eqb (oslot_of s) after
+  | KTruncRefused tp st answered after =>
+      match TruncateStmt code_incl false tp st with
+      | None => negb answered && list_eqb oslot_eqb (map (fun p => oslot_of (Kept p)) st) after
+      | Some _ => false
+      end
+  | KTruncReport tp st report =>
+      list_eqb line_eqb (sort_lines (map line_of (snd (Truncate code_incl tp st)))) report
   end.
 
 Definition mismatches (l : list case) : list nat := mismatches_of check l.
